@@ -32,7 +32,7 @@ def ext_value(mod, name):
 
 
 _STR_METHODS = {"encode", "decode", "lower", "upper", "strip", "lstrip", "rstrip", "replace", "join", "split",
-                "format", "isascii", "startswith", "endswith"}
+                "format", "isascii", "startswith", "endswith", "partition", "rpartition", "find", "rfind", "isdigit"}
 
 
 class Folder:
@@ -197,6 +197,13 @@ class Folder:
             if t[2] in ("VERBOSE", "X", "IGNORECASE", "I", "ASCII", "A", "DOTALL", "S", "MULTILINE", "M"):
                 return int(getattr(re, t[2]))
         raise CannotFold(f"attribute {t[2]}")
+
+    def f_item(self, t):
+        base = self.fold(t[1])
+        try:
+            return base[t[2]]
+        except Exception as e:
+            raise CannotFold(f"item: {e!r}")
 
     def f_comp(self, t):
         raise CannotFold("comprehension")
